@@ -1268,11 +1268,13 @@ def run(ctx):
                 for size in (3, 4, 5):
                     specs.append({"tp": "deconv2d", "dim": dim, "PSF": name, "PSF_param": rng.choice([1, 2, 1.5]), "PSF_size": size, "BC": bc,
                                   "psf_name": "%s%d" % (name, size)})
+            if dim == 4:    # exact-threshold sizes: the padding is wider than the image itself (several wraps / reflections)
+                specs += [{"tp": "deconv2d", "dim": 2, "PSF": int_psfs_2d[nm], "BC": bc, "psf_name": nm + "@2"} for nm in ("big7", "big6", "asym5")]
             for sp_ in specs:
                 S = len(sp_["PSF"]) if isinstance(sp_["PSF"], list) else sp_["PSF_size"]
                 cell = "Deconvolution2D/%s/%s-%s" % (bc, "int" if isinstance(sp_["PSF"], list) else sp_["PSF"], "even" if S % 2 == 0 else "odd")
                 for _ in range(reps if isinstance(sp_["PSF"], list) else 1):
-                    add(sp_, "fa", rvec(rng, dim * dim), rvec(rng, dim * dim), cell + "/fa")
+                    add(sp_, "fa", rvec(rng, sp_["dim"] ** 2), rvec(rng, sp_["dim"] ** 2), cell + "/fa")
                 if dim == 4 and (ctx.thorough or sp_["psf_name"] in ("asym3", "asym4", "gauss3", "sym3", "motion3", "big7")):
                     for op in ("gm", "T", "T_after_gm"):
                         add(sp_, op, rvec(rng, dim * dim), rvec(rng, dim * dim), cell + "/" + op)
